@@ -1015,7 +1015,7 @@ func genC33(g *Gen, idx int) *Plan {
 
 func init() {
 	Register(&Check{ID: "C17", Level: "fault_enumeration",
-		Rule:   "real client library against the scripted gateway; per packet class (PUBLISH, PUBREL, SUBSCRIBE from the client; PUBACK, PUBREC, PUBCOMP, SUBACK to it) a planned rule drops the first j (1..RetryCount+1, i.e. within and beyond the budget), duplicates or delays occurrences; gateway-initiated QoS 2 with repeated PUBREL after completion; non-trivial = a retransmission, a PUBREL received or an acknowledged/unacknowledged Publish judged",
+		Rule:   "real client library against the scripted gateway; per packet class (PUBLISH, PUBREL, SUBSCRIBE from the client; PUBACK, PUBREC, PUBCOMP, SUBACK to it) a planned rule drops the first j (1..RetryCount+1, i.e. within and beyond the budget), duplicates or delays occurrences; gateway-initiated QoS 2 with repeated PUBREL after completion; in 12 % of the runs the gateway never acknowledges and sends DISCONNECT while the call waits (the call must not report success); non-trivial = a retransmission, a PUBREL received or an acknowledged/unacknowledged Publish judged",
 		Gen:    genC17, Oracle: oracleC17, Quick: 800, Thorough: 60000})
 	Register(&Check{ID: "C27", Level: "exploration",
 		Rule:   "filters and topic names over {a,b,'',+,#} up to 3 levels (empty levels, trailing '/', '#' at parent level), subscribe/unsubscribe histories of 2-8 calls, the scripted gateway delivers PUBLISHes (QoS 0/1 on receipt, QoS 2 on PUBREL) between the calls; judged with refmqtt.Match; deliveries that race an in-flight Subscribe/Unsubscribe are don't-care; non-trivial = at least one delivery judged",
